@@ -67,6 +67,8 @@ def sym_worker(pid, hname, config, tier):
     if tier == "thorough":
         ctx.max_recorded_paths = 400
         ctx.record_stride = 3
+    # a sample of discharged obligations is re-discharged by two other solvers
+    ctx.export_every, ctx.export_max = (97, 2) if tier == "quick" else (41, 6)
     t0 = time.time()
     status = "ok"
     err = None
@@ -104,6 +106,7 @@ def sym_worker(pid, hname, config, tier):
         "covers": sorted(ctx.covers),
         "path_records": ctx.paths if h.replay else [],
         "samples": ctx.samples,
+        "exported": ctx.exported,
         "wall_s": round(time.time() - t0, 2),
     }
 
@@ -207,6 +210,62 @@ def classify(pid, hname, config, label, inputs, known):
     return None
 
 
+def _one_external(args):
+    solver, path = args
+    if solver == "z3-4.8.12":
+        cmd = ["/usr/bin/z3", "-T:30", path]
+    else:
+        cmd = ["cvc5", "--lang=smt2", "--tlimit=30000", "--strings-exp", path]
+    try:
+        p = subprocess.run(cmd, capture_output=True, text=True, timeout=45)
+        out = (p.stdout + p.stderr).strip().splitlines()
+        if any(l.startswith("(error") for l in out):
+            return "error"
+        for l in out:
+            if l.strip() in ("sat", "unsat", "unknown"):
+                return l.strip()
+        return "unknown"
+    except subprocess.TimeoutExpired:
+        return "timeout"
+    except OSError:
+        return "missing"
+
+
+def cross_check(pid, exported, rnd, limit, nproc):
+    """Re-discharge a sample of the obligations z3 5.x answered `unsat` with /usr/bin/z3
+    4.8.12 and the cvc5 binary.  `sat` from either is a disagreement (inconclusive run);
+    unknown / timeout / error are counted but prove nothing."""
+    stats = {"obligations_rechecked": 0, "z3-4.8.12": {}, "cvc5": {}, "disagreements": []}
+    if not exported:
+        return stats
+    if len(exported) > limit:
+        exported = rnd.sample(exported, limit)
+    d = os.path.join(OUT, pid, f"xcheck-{os.getpid()}")
+    os.makedirs(d, exist_ok=True)
+    jobs = []
+    try:
+        for i, e in enumerate(exported):
+            path = os.path.join(d, f"o{i}.smt2")
+            with open(path, "w") as fh:
+                fh.write(e["smt2"])
+            for sname in ("z3-4.8.12", "cvc5"):
+                jobs.append((sname, path, e["label"]))
+        from concurrent.futures import ThreadPoolExecutor
+
+        with ThreadPoolExecutor(max_workers=max(1, nproc)) as ex:
+            res = list(ex.map(_one_external, [(j[0], j[1]) for j in jobs]))
+        stats["obligations_rechecked"] = len(exported)
+        for (sname, path, label), r in zip(jobs, res):
+            stats[sname][r] = stats[sname].get(r, 0) + 1
+            if r == "sat":
+                stats["disagreements"].append({"solver": sname, "label": label})
+    finally:
+        import shutil
+
+        shutil.rmtree(d, ignore_errors=True)
+    return stats
+
+
 def run_replays(pid, items, nproc):
     """items: list of {harness, config, inputs, label?, obs?}.  Runs them on the
     untouched real code in a separate interpreter without the import hook."""
@@ -299,6 +358,8 @@ def main(argv=None):
     if args.verbose:
         for r in sorted(results, key=lambda r: -r.get("wall_s", 0)):
             print("  ", r["harness"], json.dumps(r["config"]), "status", r.get("status"), "paths", r.get("paths"), "oblig", r.get("obligations"), "q", r.get("queries"), "solver_s", r.get("solver_s"), "wall", r.get("wall_s"), "exh", r.get("exhaustive"))
+    # ---- cross-solver re-check of a sample of discharged obligations ----------
+    xs = cross_check(pid, [e for r in results for e in r.get("exported", [])], rnd, 24 if args.tier == "quick" else 120, args.jobs)
     # ---- replay phase --------------------------------------------------------
     items = []
     max_path_replays = 40 if args.tier == "quick" else 400
@@ -393,6 +454,8 @@ def main(argv=None):
     for hn, n in obl_by_h.items():
         if n == 0:
             problems.append(f"{hn}: no obligation in any configuration (vacuous harness)")
+    for dg in xs.get("disagreements", [])[:5]:
+        problems.append(f"cross-solver disagreement: {dg['solver']} answers sat on an obligation z3 discharged: {dg['label']}")
     for u in unreproduced:
         problems.append(f"counterexample did not reproduce on the real code: {u['harness']} {u['config']} {u['label']} {u['inputs']} -> {str(u['replay'])[:300]}")
     for m in real_mismatch[:5]:
@@ -469,6 +532,8 @@ def main(argv=None):
                 "stubs": getattr(mod, "STUBS", []),
                 "harnesses": hsum,
                 "known_findings_seen": sorted(known_seen),
+                "cross_solver": {k: v for k, v in xs.items() if k != "disagreements"},
+                "cross_solver_disagreements": len(xs.get("disagreements", [])),
                 "replay_skipped_precondition": replay_skipped,
                 "replay_skipped_uf_model_not_realisable": replay_uf_skipped,
                 "inconclusive": problems[:20],
